@@ -179,7 +179,7 @@ def blame(prog, fails_fn):
 # ------------------------------------------------------------------------------ corruptions
 
 CORRUPTIONS = ["drop_rparen", "drop_rbrack", "drop_lbrack", "drop_equal", "drop_hequal", "drop_acomma", "double_comma",
-               "unterminated_quote", "drop_lparen", "stray_rbrack"]
+               "unterminated_quote", "drop_lparen", "stray_rbrack", "letter_in_name"]
 
 
 def corrupt(prog, kind, pick):
@@ -225,6 +225,13 @@ def corrupt(prog, kind, pick):
         if q in rest or q in body or "\\" in body:
             return None
         parts[i] = parts[i][:-1]
+    elif kind == "letter_in_name":
+        # names are made of the ASCII letters, digits and '_': a letter from another alphabet inside a result, command
+        # or argument name is not part of the name
+        idxs = of("result", "command", "argname")
+        i = idxs[pick % len(idxs)]
+        at = 1 + (pick // 5) % len(parts[i])
+        parts[i] = parts[i][:at] + "\u00e9\u00f6\u03bb\u0416\u00df"[pick % 5] + parts[i][at:]
     else:
         raise ValueError(kind)
     return "".join(parts)
